@@ -9,6 +9,7 @@ import os, glob, collections
 from vlib import coq, rust
 from vlib.core import NCPU, ROOT, REPO
 from props.c04 import corpus_files, short as short04
+from props import c03_payload
 
 LOWER = ["lower-init-aggr"]
 O0_MID = ["fn-dedup-debug", "inline", "globals-dce", "dce"]
@@ -24,6 +25,7 @@ OPT = ["mem2reg", "sroa", "inline", "const-folding", "ccp", "simplify-cfg", "glo
 
 
 def short(f):
+    if "/payload/pl_" in f: return "payload/" + os.path.basename(f)
     if "/corpus/C03/" in f: return "c03/" + os.path.basename(f)
     return short04(f)
 
@@ -89,9 +91,11 @@ def run(ctx):
     # ------------------------------------------------------------ (1) fn-dedup: validate every merge
     lines, meta = [], {}
     prefixes = ["-", "mem2reg", "simplify-cfg,mem2reg,dce"]
-    dedup_files = c03 + ir_gen + [f for f in ir_tests if "/fn_dedup/" in f] if quick else c03 + ir_gen + ir_tests
+    # systematic candidates: one module per kind of non-value payload, functions fa / fb (one payload differs) / fc (= fa)
+    payload = [p for _, p in c03_payload.write_all(os.path.join(ctx.work, "payload"))]
+    dedup_files = payload + (c03 + ir_gen + [f for f in ir_tests if "/fn_dedup/" in f] if quick else c03 + ir_gen + ir_tests)
     for f in dedup_files:
-        for pre in (prefixes[:1] if (quick and f in ir_gen) else prefixes):
+        for pre in (prefixes[:1] if ((quick and f in ir_gen) or f in payload) else prefixes):
             for dp in ("fn-dedup-release", "fn-dedup-debug"):
                 i = "d%d" % len(meta); meta[i] = (f, pre, dp); lines.append("dedup\t%s\t%s\t%s\t%s" % (i, f, pre, dp))
     try:
@@ -113,6 +117,19 @@ def run(ctx):
                     if int(p[4]) > 0:
                         ctx.violation("%s:%s,%s:removed-uncalled" % (short(f), pre, dp), {"ir_file": f, "prefix": pre, "pass": dp, "line": l},
                                       "%s removed %s function(s) that were not replaced at any call site" % (dp, p[4]))
+    pl_stat = collections.Counter()
+    for i, (f, pre, dp) in meta.items():
+        if f not in payload: continue
+        ls = res.get(i, [])
+        nl = [l for l in ls if l[0] == "N"]
+        if not nl or nl[0].split(" ")[1] in ("err", "panic"):
+            pl_stat["INVALID-TEMPLATE"] += 1
+            deferred.append(("payload-template:%s" % short(f), {"ir_file": f, "result": nl[:1]}, "payload candidate module %s is not accepted by the IR parser/verifier" % short(f)))
+            continue
+        ps_ = sorted(tuple(l.split(" ")[1:3]) for l in ls if l[0] == "P")
+        if any("fb" in x for x in ps_): pl_stat["DIFFERENT-PAIR-MERGED"] += 1
+        elif ps_: pl_stat["only-control-merged"] += 1
+        else: pl_stat["nothing-merged"] += 1
     seen, uniq = set(), []
     for p in pairs:
         k = (p[5], p[6])
@@ -134,9 +151,14 @@ def run(ctx):
     for p, c in zip(uniq, codes):
         if c != 0:
             key = "%s:%s,%s:%s=%s" % (short(p[0]), p[1], p[2], p[3], p[4])
-            ctx.violation(key, {"ir_file": p[0], "prefix": p[1], "pass": p[2], "removed": p[3], "kept": p[4], "removed_body": p[5][:3000], "kept_body": p[6][:3000]},
+            ctx.violation(key, {"ir_file": p[0], "prefix": p[1], "pass": p[2], "removed": p[3], "kept": p[4], "removed_body": p[5][:3000], "kept_body": p[6][:3000],
+                                "module_text": open(p[0]).read()[:6000] if os.path.getsize(p[0]) < 20000 else None,
+                                "replay": "printf 'dedup\\tx\\t%s\\t%s\\t%s\\n' | harness/target/debug/c03 /dev/stdout" % (p[0], p[1], p[2])},
                           "%s merged %s into %s although the bodies are not equal modulo renaming (proved checker alpha_eq rejects)" % (p[2], p[3], p[4]))
-    ctx.log("fn-dedup: %d runs, %d merged pairs (%d distinct), alpha_eq accepts %d ; %s" % (nstat["runs"], len(pairs), len(uniq), acc, dict(nstat)))
+    ctx.log("fn-dedup: %d runs, %d merged pairs (%d distinct), alpha_eq accepts %d ; %s ; payload candidates (%d kinds x 2 profiles): %s"
+            % (nstat["runs"], len(pairs), len(uniq), acc, dict(nstat), len(payload), dict(pl_stat)))
+    if pl_stat["only-control-merged"] < len(payload):
+        deferred.append(("payload-controls", {"stat": dict(pl_stat)}, "too few identical control pairs of the payload candidates were merged: the candidates do not exercise fn-dedup"))
     if acc < 40:
         deferred.append(("dedup-too-few", {"accepted": acc}, "too few merged pairs were validated: the dedup validator did not exercise the pass"))
 
@@ -183,6 +205,7 @@ def run(ctx):
     # ------------------------------------------------------------ (2) behaviour on the VM
     scripts = [f for f in c03 + ir_gen if open(f).read(200).lstrip().startswith("script")]
     if quick: scripts = c03[:14] + [f for f in scripts if "/gen/" in f] + rng.sample([f for f in scripts if "/irgen/" in f], 25)
+    scripts += [f for f in payload if open(f).read(20).startswith("script")]
     vs = variants(rng, quick)
     lines, meta = [], {}
     for f in scripts:
@@ -237,6 +260,8 @@ def run(ctx):
     lines, meta = [], {}
     for f in baseline:
         for name, ps in vs:
+            # the hand-written payload candidates are only meant for fn-dedup (they read uninitialised locals etc.)
+            if f in payload and not name.startswith("fn-dedup"): continue
             i = "v%d" % len(meta); meta[i] = (f, name, ps); lines.append("run\t%s\t%s\t%s" % (i, f, ",".join(ps)))
     try:
         res = run_c03(binp, lines, ctx.work, "var")
@@ -287,7 +312,7 @@ def run(ctx):
         "rule": "dedup: distinct (removed body, kept body) pairs merged by the real pass on %d modules x 3 prefixes x 2 profiles; behaviour: distinct (script, pass list) "
                 "with pass list != baseline; %d scripts x %d variants (each of %d optional passes at start/middle/end of the O0 skeleton, full O1, demotions early/twice, random lists)"
                 % (len(c03 + ir_gen + ir_tests), len(baseline), len(vs), len(OPT)),
-        "dedup_pairs": len(pairs), "dedup_pairs_distinct": len(uniq), "dedup_alpha_eq_accept": acc, "dedup_runs": dict(nstat),
+        "payload_candidates": dict(pl_stat), "payload_kinds": len(payload), "dedup_pairs": len(pairs), "dedup_pairs_distinct": len(uniq), "dedup_alpha_eq_accept": acc, "dedup_runs": dict(nstat),
         "behaviour_baseline": dict(bstat), "behaviour_variants": dict(vstat),
         "checker_cmd": "make -C coq C03/Props.vo C03/Judge.vo; coqc vm_compute judge_all over merged pairs",
         "trusted_base": ["Coq 8.16.1 kernel + vm_compute", "harness/src/bin/c03.rs (body export with Debug-rendered labels, fuel-vm driver)", "props/c03.py"],
